@@ -53,6 +53,15 @@ def correspondence(ctx):
         T, Uo = sp['T'], c['outer_unknowns']
         if vm is None or vm == 'None':
             stats['singular'] += 1
+            try:         # the exact model found the inner or the outer system singular: the implementation must not return moderate finite numbers for it
+                Tg_ = [x for x in sp['Tg'] if x != c['wrapped'][1]]
+                G_ = nm.solve_jacobian(ss, Uo, Tg_, sp['Z'], outputs=c['outputs'], T=T) if Uo else nm.jacobian(ss, sp['Z'], c['outputs'], T=T)
+                big = max([float(np.abs(C05.dmat(G_, o, z, T)).max()) for z in sp['Z'] for o in c['outputs'] if o in G_.outputs and z in G_.nesteddict[o]] or [0.0])
+                inner_ok = not C.numerically_singular(lambda: combine([b for b in nm.blocks if b.name.startswith('solved')][0].block.blocks, name='tmp').jacobian(ss, [c['wrapped'][0]], [c['wrapped'][1]], T=T).pack(T))
+                if not logs and np.isfinite(big) and big < 1e6 and inner_ok and not (Uo and C.numerically_singular(lambda: nm.jacobian(ss, Uo, Tg_, T=T).pack(T))):
+                    dis.append(dict(what='the executable nested model finds a target-unknown Jacobian exactly singular where the implementation solves a well-conditioned system', case=c))
+            except Exception:
+                pass
             continue
         body = vm[1] if isinstance(vm, tuple) and len(vm) == 2 and vm[0] == 'Some' else vm
         Tgo = [x for x in sp['Tg'] if x != c['wrapped'][1]]
